@@ -128,6 +128,9 @@ func main() {
 	shrinkF := flag.String("shrink", "", "minimise the failing document of this file")
 	show := flag.String("show", "", "render the document of this file and print it")
 	outDoc := flag.String("o", "", "output file for -shrink")
+	htmlF := flag.String("html", "", "render a raw HTML file (engine/hints from -engine/-hints)")
+	engineF := flag.String("engine", "pango", "text engine for -html")
+	hintsF := flag.Bool("hints", false, "presentational hints for -html")
 	corpusDir := flag.String("corpus", "/verif/corpus/C01", "regression corpus directory")
 	maxShrink := flag.Int("shrink-calls", 120, "render budget per shrunk failing case in the stream")
 	flag.Parse()
@@ -135,6 +138,19 @@ func main() {
 	pool := NewPool(*par)
 	defer pool.Close()
 
+	if *htmlF != "" {
+		b, err := os.ReadFile(*htmlF)
+		if err != nil {
+			fmt.Println(err)
+			os.Exit(2)
+		}
+		d := &Doc{Top: []*Node{{K: "raw", Text: string(b)}}, Engine: *engineF, Hints: *hintsF}
+		o := pool.Run(d)
+		o.Top = nil
+		ob, _ := json.MarshalIndent(o, "", " ")
+		fmt.Printf("%s\n", ob)
+		return
+	}
 	if *show != "" {
 		d, _, err := loadDoc(*show)
 		if err != nil {
